@@ -15,7 +15,7 @@ VERIF = os.path.dirname(os.path.dirname(os.path.abspath(__file__)))
 
 MODES = {
     'C01': ['bnd_doc', 'bnd_tables', 'c07_ol', 'c01_colspan', 'c01_specificity', 'c20_nth', 'c01_engine', 'c01_css', 'c01_colours', 'bnd_mut'],
-    'C02': ['bnd_tables', 'bnd_doc', 'bnd_c07', 'bnd_c04', 'c02_elements', 'bnd_c12'],
+    'C02': ['bnd_tables', 'bnd_doc', 'bnd_c07', 'bnd_c04', 'c02_elements', 'bnd_c12', 'c16_roman'],
     'C03': ['bnd_tables', 'bnd_doc', 'c03_elements'],
     'C04': ['bnd_c04'],
     'C05': ['bnd_tables'],
@@ -35,7 +35,7 @@ MODES = {
 }
 # enumerations written earlier as replay searchers (they stop at the first hit and print `NONE <cases>` otherwise); bound stated here
 LEGACY_BOUND = {
-    'c16_roman': 'a decorator numbering ordered lists in roman numerals (the widest marker is neither the first nor the last): 5 lists (start 1, 6, 17, 38; 2..9 items) at widths 8..=24: lines within the width, the texts of all items start in one column',
+    'c16_roman': 'a decorator numbering ordered lists in roman numerals (the widest marker is neither the first nor the last): 5 lists (start 1, 6, 17, 38; 2..9 items), first words of 3, 4 and 6 columns, at widths 8..=24: lines within the width; then: the texts of all items start in one column',
     'c16_compose': '50 (thorough: 200) seeded blocks inside a quote and a list item, 3 decorators with non-ASCII / wide / multi-character prefixes, widths 10..=40 step 3: when both render, the block is its content rendered at width - display width of the prefix with the prefix (then blank indentation of that width for items) in front of every line',
     'c07_ol': '<ol start=s> with s in {i64::MAX, MAX-1, i64::MIN, 0, -1, 98}, 1..3 items, widths 6 and 30: no panic',
     'c01_colspan': 'tables with colspan in {0, 1, 2, 3, usize::MAX, 2^32} in 2 rows x 2 cells, widths 1, 5, 20: no panic',
@@ -48,7 +48,7 @@ LEGACY_BOUND = {
     'c16_trivial': 'TrivialDecorator on 10 documents: output characters == document text characters',
     'c19': 'all pairs of colour declarations on one element: 4 origins (agent, user, author, inline) x importance x 4 selectors of different specificity, both source orders: the winner is the CSS cascade winner',
     'c19_block': '2..3 colour declarations with every importance pattern inside one rule block and inside one style attribute: the last important one wins, else the last',
-    'c19_order': 'all 27 sequences of three colour rules of equal specificity (repeats included), in one sheet or split over two add_css calls, on an element matching all of them: the last rule wins',
+    'c19_order': 'all 27 sequences of three colour rules of equal specificity (repeats included), in one sheet, split over two add_css calls, or as three <style> elements of the document (head, body, both) with use_doc_css, on an element matching all of them: the last rule wins; all ordered triples of five selectors of different specificity with every two-colour assignment: the cascade winner',
     'c19_inherit': '9 documents: the colour of a token is the one of the nearest ancestor-or-self with a winning declaration',
     'c14_hardwrap': '3 documents x widths 3..=8: an id whose first word is hard-wrapped still yields exactly one fragment marker',
 }
@@ -180,6 +180,7 @@ _HIT_RULES = [
     (r'^raw mode: cell characters', {'C03'}),
     (r'^lines of a side-by-side table differ|^first or last line is not a rule|but bar above=', {'C05', 'C06'}),
     (r'does not start with its prefix', {'C07', 'C16'}),
+    (r'^item texts start in columns', {'C07', 'C16'}),
     (r'^trivial decorator: output characters', {'C03', 'C16'}),
     (r'greedy reference', {'C04'}),
     (r'although every character fits', {'C04'}),
